@@ -1,0 +1,92 @@
+//go:build verif
+
+package trie
+
+import (
+	"fmt"
+	"strings"
+)
+
+// Access to the unexported node decoder for the C17 correspondence harness (byte-level
+// decodeNode / mustDecodeNode against the Lean model). Read-only: nothing here touches a trie
+// or a database.
+
+// VerifDecodeNode feeds buf to decodeNode (must = false) or mustDecodeNode (must = true) and
+// returns a canonical dump of the decoded node, or decodeNode's error. Panics are not caught.
+//
+// Dump: nil "n", hash node "h<hex>", value node "v<hex>", short node
+// "s<hex key nibbles, g = terminator>[flags](child)", full node "f[flags](c0,...,c16)";
+// flags = d|c (dirty/clean), cache generation, "#" if a hash is cached.
+func VerifDecodeNode(hash, buf []byte, cachegen uint16, must bool) (string, error) {
+	var n node
+	if must {
+		n = mustDecodeNode(hash, buf, cachegen)
+	} else {
+		var err error
+		n, err = decodeNode(hash, buf, cachegen)
+		if err != nil {
+			return "", err
+		}
+	}
+	var sb strings.Builder
+	verifDump(&sb, n)
+	return sb.String(), nil
+}
+
+// VerifDecodeErrPath returns the decode path recorded in a decodeNode error (innermost first)
+// and the wrapped error; ok = false if err carries no path.
+func VerifDecodeErrPath(err error) (what error, path []string, ok bool) {
+	if de, isDE := err.(*decodeError); isDE {
+		return de.what, append([]string{}, de.stack...), true
+	}
+	return err, nil, false
+}
+
+func verifFlags(sb *strings.Builder, f nodeFlag) {
+	d := "c"
+	if f.dirty {
+		d = "d"
+	}
+	h := ""
+	if f.hash != nil {
+		h = "#"
+	}
+	fmt.Fprintf(sb, "[%s%d%s]", d, f.gen, h)
+}
+
+func verifDump(sb *strings.Builder, n node) {
+	switch n := n.(type) {
+	case nil:
+		sb.WriteString("n")
+	case hashNode:
+		fmt.Fprintf(sb, "h%x", []byte(n))
+	case valueNode:
+		fmt.Fprintf(sb, "v%x", []byte(n))
+	case *shortNode:
+		sb.WriteString("s")
+		for _, b := range n.Key {
+			if b == 16 {
+				sb.WriteString("g")
+			} else {
+				fmt.Fprintf(sb, "%x", b)
+			}
+		}
+		verifFlags(sb, n.flags)
+		sb.WriteString("(")
+		verifDump(sb, n.Val)
+		sb.WriteString(")")
+	case *fullNode:
+		sb.WriteString("f")
+		verifFlags(sb, n.flags)
+		sb.WriteString("(")
+		for i, c := range n.Children {
+			if i > 0 {
+				sb.WriteString(",")
+			}
+			verifDump(sb, c)
+		}
+		sb.WriteString(")")
+	default:
+		fmt.Fprintf(sb, "?%T", n)
+	}
+}
